@@ -1226,6 +1226,9 @@ def c11(ctx):
                 st["req"] = [f for f in st["req"] if f[0] != "content-type"] + [("content-type", "multipart/form-data; boundary=x")]
             elif r < 0.2:
                 st["resp"] = list(st["resp"]) + [("content-encoding", "gzip")]
+            elif r < 0.35:     # GraphQL over HTTP/2: a JSON body whose "query" parses as GraphQL
+                st["req"] = [f for f in st["req"] if f[0] not in ("content-type", ":method")] + [(":method", "POST"), ("content-type", "application/json")]
+                st["req_body"] = b'{"query":"{ a { b } }","variables":null}'
         c = build_h2_case(rng, streams)
         c["bodylimit"] = 1
         cases.append(c)
